@@ -5,6 +5,7 @@ type rules.  The statement per base type is `Post`.
 -/
 import MsVerif.Lemmas.InterpBasic
 import MsVerif.Lemmas.InterpTyping
+import MsVerif.Lemmas.InterpSmall
 import MsVerif.Lemmas.TypeSoundArgsThm
 import MsVerif.Lemmas.SatNum
 import MsVerif.Lemmas.SatExecN
@@ -44,7 +45,7 @@ def Sup (env : Env) (ke : KeyEnv) : Ms → Prop
   | .pkH _ | .rawPkH _ => True
   | .after n | .older n => LockOk env n
   | .hash _ _ => True
-  | .alt x | .check x | .verify x | .zeroNotEqual x => Sup env ke x
+  | .alt x | .check x | .verify x | .zeroNotEqual x | .nonZero x => Sup env ke x
   | .andV l r | .andB l r | .orB l r | .orC l r | .orD l r | .orI l r => Sup env ke l ∧ Sup env ke r
   | .andOr a b c => Sup env ke a ∧ Sup env ke b ∧ Sup env ke c
   | .swap x | .dupIf x => Sup env ke x ∧ TypeSound.wf x = true
@@ -55,7 +56,7 @@ def Sup (env : Env) (ke : KeyEnv) : Ms → Prop
   | .multi k ks =>
     env.flags.tapscript = false ∧ 1 ≤ k ∧ k ≤ ks.length ∧ ks.length ≤ 20
       ∧ ∀ key ∈ ks, pubkeyOk env (ke.ser key) = true
-  | .nonZero _ | .sortedMulti _ _
+  | .sortedMulti _ _
   | .sortedMultiA _ _ => False
 def SupList (env : Env) (ke : KeyEnv) : MsList → Prop
   | .nil => True
@@ -68,6 +69,32 @@ variable {env : Env} {ke : KeyEnv} {ie : IEnv} {ctx : Ctx}
 theorem pureOk {α : Type} (a : α) : (pure a : Except Err α) = .ok a := rfl
 @[simp] theorem bindErr {α β : Type} (e : Err) (f : α → Except Err β) :
     ((Except.error e : Except Err α) >>= f) = .error e := rfl
+
+/-! ### witness element sizes -/
+
+/-- every `Push` element of the abstract stack is shorter than 2^31 bytes (BIP141 / policy limit
+witness elements to 520 bytes for v0 and tapscript, consensus to the 4 MB block weight) -/
+def SmallA (a : AStack) : Prop := ∀ b, Elem.push b ∈ a → b.length < 2 ^ 31
+
+theorem SmallA.of_sub {a st : AStack} (hs : SmallA st) (h : PushSub a st) : SmallA a :=
+  fun b hb => hs b (h b hb)
+
+theorem SmallA.tail {e : Elem} {a : AStack} (hs : SmallA (e :: a)) : SmallA a :=
+  fun b hb => hs b (List.mem_cons_of_mem _ hb)
+
+theorem SmallA.head {e : Bytes} {c : List Bytes} (hs : SmallA (absS (e :: c))) : e.length < 2 ^ 31 := by
+  cases he : Elem.ofBytes e with
+  | sat => rw [ofBytes_sat he]; decide
+  | dissat => rw [ofBytes_dissat he]; decide
+  | push b =>
+    obtain ⟨e1, _, _⟩ := ofBytes_push he
+    subst e1
+    exact hs e (by simp [absS_cons, he])
+
+/-- the result stack of an accepted evaluation is as small as its input -/
+theorem SmallA.interp {ms : Ms} {st a' : AStack} {cs : List Constraint} (hs : SmallA st)
+    (h : interp ke ie ms st = .ok (a', cs)) : SmallA a' :=
+  hs.of_sub (interp_sub ms st a' cs h)
 
 /-! ### signatures -/
 
@@ -492,7 +519,8 @@ theorem sound_swap (h : NoLimits env) {x : Ms} {u : Bool} {c : List Bytes} {a' :
 theorem sound_dupIf (h : NoLimits env) {x : Ms} {c : List Bytes} {a' : AStack} {cs : List Constraint}
     (hc : TypeSound.Cons (frag env ke ctx x) 0 0)
     (hi : interp ke ie (.dupIf x) (absS c) = .ok (a', cs))
-    (Px : ∀ c1 a2 cs2, interp ke ie x (absS c1) = .ok (a2, cs2) → Post env ke ctx x .V false c1 a2) :
+    (hA : SmallA (absS c))
+    (Px : ∀ c1 a2 cs2, SmallA (absS c1) → interp ke ie x (absS c1) = .ok (a2, cs2) → Post env ke ctx x .V false c1 a2) :
     Post env ke ctx (.dupIf x) .B false c a' := by
   cases c with
   | nil => simp [interp] at hi
@@ -516,7 +544,7 @@ theorem sound_dupIf (h : NoLimits env) {x : Ms} {c : List Bytes} {a' : AStack} {
       | ok p =>
         obtain ⟨a2, cs2⟩ := p
         simp [hx] at hi
-        obtain ⟨c0, ha2, F⟩ := Px c1 a2 cs2 hx
+        obtain ⟨c0, ha2, F⟩ := Px c1 a2 cs2 hA.tail hx
         obtain ⟨o0, hf0⟩ := F [] [] 0
         obtain ⟨out, ho, hout, _⟩ := frag_in_place (pre := []) (c1 := c1) (out0 := c0) h hc rfl []
           (by simpa using hf0)
@@ -551,10 +579,12 @@ theorem sound_andB (h : NoLimits env) {l r : Ms} {ul ur : Bool} {c : List Bytes}
     {cs1 cs : List Constraint} (hl : interp ke ie l (absS c) = .ok (a1, cs1))
     (hi : interp ke ie (.andB l r) (absS c) = .ok (a', cs))
     (Pl : Post env ke ctx l .B ul c a1)
-    (Pr : ∀ c1 a2 cs2, interp ke ie r (absS c1) = .ok (a2, cs2) → Post env ke ctx r .W ur c1 a2) :
+    (hA : SmallA (absS c))
+    (Pr : ∀ c1 a2 cs2, SmallA (absS c1) → interp ke ie r (absS c1) = .ok (a2, cs2) → Post env ke ctx r .W ur c1 a2) :
     Post env ke ctx (.andB l r) .B true c a' := by
   obtain ⟨rl, c1, ha, Fl⟩ := Pl
   subst ha
+  have hA1 : SmallA (absS c1) := (hA.interp hl).tail
   simp only [interp, hl] at hi
   have hbl : rl = .sat ∨ rl = .dissat := by
     obtain ⟨_, _, _, hr⟩ := Fl [] [] 0; exact hr.bool
@@ -562,7 +592,7 @@ theorem sound_andB (h : NoLimits env) {l r : Ms} {ul ur : Bool} {c : List Bytes}
   | error e => rcases hbl with e1 | e1 <;> subst e1 <;> simp [hr] at hi
   | ok p =>
     obtain ⟨a2, cs2⟩ := p
-    obtain ⟨rr, c2, ha2, Fr⟩ := Pr c1 a2 cs2 hr
+    obtain ⟨rr, c2, ha2, Fr⟩ := Pr c1 a2 cs2 hA1 hr
     subst ha2
     have hi' : (if rr == .sat && rl == .sat then Elem.sat else Elem.dissat) :: absS c2 = a' := by
       rcases hbl with e1 | e1 <;> subst e1 <;> simp [hr] at hi <;> simp [hi.1]
@@ -585,10 +615,12 @@ theorem sound_orB (h : NoLimits env) {l r : Ms} {ul ur : Bool} {c : List Bytes} 
     {cs1 cs : List Constraint} (hl : interp ke ie l (absS c) = .ok (a1, cs1))
     (hi : interp ke ie (.orB l r) (absS c) = .ok (a', cs))
     (Pl : Post env ke ctx l .B ul c a1)
-    (Pr : ∀ c1 a2 cs2, interp ke ie r (absS c1) = .ok (a2, cs2) → Post env ke ctx r .W ur c1 a2) :
+    (hA : SmallA (absS c))
+    (Pr : ∀ c1 a2 cs2, SmallA (absS c1) → interp ke ie r (absS c1) = .ok (a2, cs2) → Post env ke ctx r .W ur c1 a2) :
     Post env ke ctx (.orB l r) .B true c a' := by
   obtain ⟨rl, c1, ha, Fl⟩ := Pl
   subst ha
+  have hA1 : SmallA (absS c1) := (hA.interp hl).tail
   simp only [interp, hl] at hi
   have hbl : rl = .sat ∨ rl = .dissat := by
     obtain ⟨_, _, _, hr⟩ := Fl [] [] 0; exact hr.bool
@@ -596,7 +628,7 @@ theorem sound_orB (h : NoLimits env) {l r : Ms} {ul ur : Bool} {c : List Bytes} 
   | error e => rcases hbl with e1 | e1 <;> subst e1 <;> simp [hr] at hi
   | ok p =>
     obtain ⟨a2, cs2⟩ := p
-    obtain ⟨rr, c2, ha2, Fr⟩ := Pr c1 a2 cs2 hr
+    obtain ⟨rr, c2, ha2, Fr⟩ := Pr c1 a2 cs2 hA1 hr
     subst ha2
     have hi' : (if rr == .dissat && rl == .dissat then Elem.dissat else Elem.sat) :: absS c2 = a' := by
       rcases hbl with e1 | e1 <;> subst e1 <;> simp [hr] at hi <;> simp [hi.1]
@@ -629,10 +661,12 @@ theorem sound_orD (h : NoLimits env) {l r : Ms} {u : Bool} {c : List Bytes} {a1 
     {cs1 cs : List Constraint} (hl : interp ke ie l (absS c) = .ok (a1, cs1))
     (hi : interp ke ie (.orD l r) (absS c) = .ok (a', cs))
     (Pl : Post env ke ctx l .B true c a1)
-    (Pr : ∀ c1 a2 cs2, interp ke ie r (absS c1) = .ok (a2, cs2) → Post env ke ctx r .B u c1 a2) :
+    (hA : SmallA (absS c))
+    (Pr : ∀ c1 a2 cs2, SmallA (absS c1) → interp ke ie r (absS c1) = .ok (a2, cs2) → Post env ke ctx r .B u c1 a2) :
     Post env ke ctx (.orD l r) .B u c a' := by
   obtain ⟨rl, c1, ha, Fl⟩ := Pl
   subst ha
+  have hA1 : SmallA (absS c1) := (hA.interp hl).tail
   simp only [interp, hl] at hi
   cases rl with
   | push b => simp at hi
@@ -651,7 +685,7 @@ theorem sound_orD (h : NoLimits env) {l r : Ms} {u : Bool} {c : List Bytes} {a1 
     | ok p =>
       obtain ⟨a2, cs2⟩ := p
       simp [hr] at hi
-      have P := Pr c1 a2 cs2 hr
+      have P := Pr c1 a2 cs2 hA1 hr
       rw [hi.1] at P
       refine Post.transport (by simp) (fun rest alt ops => ?_) P
       obtain ⟨vl, o1, hf1, hr1⟩ := Fl rest alt ops
@@ -664,10 +698,12 @@ theorem sound_orC (h : NoLimits env) {l r : Ms} {u : Bool} {c : List Bytes} {a1 
     {cs1 cs : List Constraint} (hl : interp ke ie l (absS c) = .ok (a1, cs1))
     (hi : interp ke ie (.orC l r) (absS c) = .ok (a', cs))
     (Pl : Post env ke ctx l .B true c a1)
-    (Pr : ∀ c1 a2 cs2, interp ke ie r (absS c1) = .ok (a2, cs2) → Post env ke ctx r .V u c1 a2) :
+    (hA : SmallA (absS c))
+    (Pr : ∀ c1 a2 cs2, SmallA (absS c1) → interp ke ie r (absS c1) = .ok (a2, cs2) → Post env ke ctx r .V u c1 a2) :
     Post env ke ctx (.orC l r) .V u c a' := by
   obtain ⟨rl, c1, ha, Fl⟩ := Pl
   subst ha
+  have hA1 : SmallA (absS c1) := (hA.interp hl).tail
   simp only [interp, hl] at hi
   cases rl with
   | push b => simp at hi
@@ -685,7 +721,7 @@ theorem sound_orC (h : NoLimits env) {l r : Ms} {u : Bool} {c : List Bytes} {a1 
     | ok p =>
       obtain ⟨a2, cs2⟩ := p
       simp [hr] at hi
-      have P := Pr c1 a2 cs2 hr
+      have P := Pr c1 a2 cs2 hA1 hr
       rw [hi.1] at P
       refine Post.transport (by simp) (fun rest alt ops => ?_) P
       obtain ⟨vl, o1, hf1, hr1⟩ := Fl rest alt ops
@@ -697,8 +733,9 @@ theorem sound_orC (h : NoLimits env) {l r : Ms} {u : Bool} {c : List Bytes} {a1 
 theorem sound_orI (h : NoLimits env) {l r : Ms} {b : Base} {u : Bool} {c : List Bytes} {a' : AStack}
     {cs : List Constraint} (hb : b ≠ .W)
     (hi : interp ke ie (.orI l r) (absS c) = .ok (a', cs))
-    (Pl : ∀ c1 a2 cs2, interp ke ie l (absS c1) = .ok (a2, cs2) → Post env ke ctx l b u c1 a2)
-    (Pr : ∀ c1 a2 cs2, interp ke ie r (absS c1) = .ok (a2, cs2) → Post env ke ctx r b u c1 a2) :
+    (hA : SmallA (absS c))
+    (Pl : ∀ c1 a2 cs2, SmallA (absS c1) → interp ke ie l (absS c1) = .ok (a2, cs2) → Post env ke ctx l b u c1 a2)
+    (Pr : ∀ c1 a2 cs2, SmallA (absS c1) → interp ke ie r (absS c1) = .ok (a2, cs2) → Post env ke ctx r b u c1 a2) :
     Post env ke ctx (.orI l r) b u c a' := by
   cases c with
   | nil => simp [interp] at hi
@@ -710,14 +747,14 @@ theorem sound_orI (h : NoLimits env) {l r : Ms} {b : Base} {u : Bool} {c : List 
       have := ofBytes_sat he
       subst this
       simp only [he] at hi
-      refine Post.transport hb (fun rest alt ops => ?_) (Pl c1 a' cs hi)
+      refine Post.transport hb (fun rest alt ops => ?_) (Pl c1 a' cs hA.tail hi)
       refine ⟨ops + 1, fun s hs => ⟨s.ops + 1 + codeCount (encode ke ctx r) + 1, ?_⟩⟩
       simp [frag, cnd_nl h, condPop_one, hs, skipCount_nl h, countOp_nl h]
     | dissat =>
       have := ofBytes_dissat he
       subst this
       simp only [he] at hi
-      refine Post.transport hb (fun rest alt ops => ?_) (Pr c1 a' cs hi)
+      refine Post.transport hb (fun rest alt ops => ?_) (Pr c1 a' cs hA.tail hi)
       refine ⟨ops + 1 + codeCount (encode ke ctx l) + 1, fun s hs => ⟨s.ops + 1, ?_⟩⟩
       simp [frag, cnd_nl h, condPop_nil, hs, skipCount_nl h, countOp_nl h]
 
@@ -725,11 +762,13 @@ theorem sound_andOr (h : NoLimits env) {x y z : Ms} {b : Base} {u : Bool} {c : L
     {cs1 cs : List Constraint} (hb : b ≠ .W) (hx : interp ke ie x (absS c) = .ok (a1, cs1))
     (hi : interp ke ie (.andOr x y z) (absS c) = .ok (a', cs))
     (Px : Post env ke ctx x .B true c a1)
-    (Py : ∀ c1 a2 cs2, interp ke ie y (absS c1) = .ok (a2, cs2) → Post env ke ctx y b u c1 a2)
-    (Pz : ∀ c1 a2 cs2, interp ke ie z (absS c1) = .ok (a2, cs2) → Post env ke ctx z b u c1 a2) :
+    (hA : SmallA (absS c))
+    (Py : ∀ c1 a2 cs2, SmallA (absS c1) → interp ke ie y (absS c1) = .ok (a2, cs2) → Post env ke ctx y b u c1 a2)
+    (Pz : ∀ c1 a2 cs2, SmallA (absS c1) → interp ke ie z (absS c1) = .ok (a2, cs2) → Post env ke ctx z b u c1 a2) :
     Post env ke ctx (.andOr x y z) b u c a' := by
   obtain ⟨rx, c1, ha, Fx⟩ := Px
   subst ha
+  have hA1 : SmallA (absS c1) := (hA.interp hx).tail
   simp only [interp, hx] at hi
   cases rx with
   | push q => simp at hi
@@ -739,7 +778,7 @@ theorem sound_andOr (h : NoLimits env) {x y z : Ms} {b : Base} {u : Bool} {c : L
     | ok p =>
       obtain ⟨a2, cs2⟩ := p
       simp [hy] at hi
-      have P := Py c1 a2 cs2 hy
+      have P := Py c1 a2 cs2 hA1 hy
       rw [hi.1] at P
       refine Post.transport hb (fun rest alt ops => ?_) P
       obtain ⟨vx, o1, hf1, hr1⟩ := Fx rest alt ops
@@ -753,7 +792,7 @@ theorem sound_andOr (h : NoLimits env) {x y z : Ms} {b : Base} {u : Bool} {c : L
     | ok p =>
       obtain ⟨a2, cs2⟩ := p
       simp [hz] at hi
-      have P := Pz c1 a2 cs2 hz
+      have P := Pz c1 a2 cs2 hA1 hz
       rw [hi.1] at P
       refine Post.transport hb (fun rest alt ops => ?_) P
       obtain ⟨vx, o1, hf1, hr1⟩ := Fx rest alt ops
@@ -839,6 +878,80 @@ theorem thresh_tail (h : NoLimits env) {k m : Nat} (hk : k < 2 ^ 31) (hm : m < 2
     · have : numEncode (k : Int) ≠ numEncode (m : Int) := fun hh => hmk (numEncode_inj' hk hm hh).symm
       simp [hmk, this]
   simp [pshOp, opc_nl h, execOpc, pushElem_nl h, e]
+
+/-! ### `j:` -/
+
+theorem size_step (h : NoLimits env) (e : Bytes) (st alt : List Bytes) (ops : Nat) :
+    opc env .size ⟨e :: st, alt, ops⟩ = .ok ⟨numEncode (e.length : Int) :: e :: st, alt, ops + 1⟩ := by
+  simp [opc_nl h, execOpc, pushElem_nl h]
+
+theorem zne_step (h : NoLimits env) {m : Nat} (hm : m < 2 ^ 31) (st alt : List Bytes) (ops : Nat) :
+    opc env .zeronotequal ⟨numEncode (m : Int) :: st, alt, ops⟩
+      = .ok ⟨boolBytes (decide (m ≠ 0)) :: st, alt, ops + 1⟩ := by
+  have e : ((m : Int) != 0) = decide (m ≠ 0) := by
+    by_cases hm0 : m = 0
+    · subst hm0; simp
+    · have : (m : Int) ≠ 0 := by omega
+      simp [hm0, this]
+  simp only [opc_nl h, execOpc, num4_enc hm, bindOk, pushElem_nl h, e]
+
+theorem cnd_bool (h : NoLimits env) (b : Bool) (st alt : List Bytes) (ops : Nat) :
+    cnd env false ⟨boolBytes b :: st, alt, ops⟩ = .ok (b, ⟨st, alt, ops + 1⟩) := by
+  cases b
+  · simpa [boolBytes] using (by rw [cnd_nl h]; exact condPop_nil' false st alt (ops + 1) :
+      cnd env false ⟨[] :: st, alt, ops⟩ = .ok (false, ⟨st, alt, ops + 1⟩))
+  · simpa [boolBytes] using (by rw [cnd_nl h]; exact condPop_one' false st alt (ops + 1) :
+      cnd env false ⟨[1] :: st, alt, ops⟩ = .ok (!false, ⟨st, alt, ops + 1⟩))
+
+/-- the first three opcodes of `j:X` on a stack whose top element is `e` -/
+theorem nonZero_frag (h : NoLimits env) (x : Ms) (e : Bytes) (hlen : e.length < 2 ^ 31)
+    (st alt : List Bytes) (ops : Nat) :
+    frag env ke ctx (.nonZero x) ⟨e :: st, alt, ops⟩ =
+      (if e.length ≠ 0 then frag env ke ctx x ⟨e :: st, alt, ops + 3⟩
+        else skipCount env (encode ke ctx x) ⟨e :: st, alt, ops + 3⟩) >>= fun c => countOp env c 1 := by
+  rw [frag]
+  simp only [size_step h, bindOk, zne_step h hlen, cnd_bool h]
+  by_cases hl : e.length = 0 <;> simp [hl]
+
+/-- `j:X` = `SIZE 0NOTEQUAL IF [X] ENDIF`: needs the size of the top element to be a 4-byte
+script number (`SmallA`) -/
+theorem sound_nonZero (h : NoLimits env) {x : Ms} {u : Bool} {c : List Bytes} {a' : AStack}
+    {cs : List Constraint} (hi : interp ke ie (.nonZero x) (absS c) = .ok (a', cs)) (hA : SmallA (absS c))
+    (Px : interp ke ie x (absS c) = .ok (a', cs) → Post env ke ctx x .B u c a') :
+    Post env ke ctx (.nonZero x) .B u c a' := by
+  cases c with
+  | nil => simp [interp] at hi
+  | cons e c1 =>
+    have hlen : e.length < 2 ^ 31 := hA.head
+    simp only [interp, absS_cons] at hi
+    cases he : Elem.ofBytes e with
+    | dissat =>
+      have := ofBytes_dissat he
+      subst this
+      simp [he] at hi
+      refine ⟨.dissat, c1, by rw [← hi.1], fun rest alt ops =>
+        ⟨[], ops + 3 + codeCount (encode ke ctx x) + 1, ?_, (Res.ofBool env true false).mono (fun _ => rfl)⟩⟩
+      rw [List.cons_append, nonZero_frag h x [] hlen]
+      simp [skipCount_nl h, countOp_nl h]
+    | sat =>
+      have e1 := ofBytes_sat he
+      subst e1
+      have hx : interp ke ie x (absS ([1] :: c1)) = .ok (a', cs) := by simpa [he] using hi
+      refine Post.transport (by simp) (fun rest alt ops => ?_) (Px hx)
+      refine ⟨ops + 3, fun s hs => ⟨s.ops + 1, ?_⟩⟩
+      rw [List.cons_append] at hs ⊢
+      rw [nonZero_frag h x [1] hlen]
+      simp [hs, countOp_nl h]
+    | push b =>
+      obtain ⟨e1, e2, _⟩ := ofBytes_push he
+      subst e1
+      have hx : interp ke ie x (absS (e :: c1)) = .ok (a', cs) := by simpa [he] using hi
+      refine Post.transport (by simp) (fun rest alt ops => ?_) (Px hx)
+      refine ⟨ops + 3, fun s hs => ⟨s.ops + 1, ?_⟩⟩
+      have hl0 : e.length ≠ 0 := by cases e <;> simp_all
+      rw [List.cons_append] at hs ⊢
+      rw [nonZero_frag h x e hlen]
+      simp [hl0, hs, countOp_nl h]
 
 /-! ### multi: CHECKMULTISIG's key walk
 
@@ -1286,158 +1399,165 @@ theorem interpRest_count : (xs : MsList) → ∀ (n : Nat) (st st' : AStack) (n'
 mutual
 theorem sound (h : NoLimits env) (ag : Agree env ie) :
     (ms : Ms) → (ty : Ty) → typeOf ms = some ty → Sup env ke ms →
-    ∀ (c : List Bytes) (a' : AStack) (cs : List Constraint), interp ke ie ms (absS c) = .ok (a', cs) →
+    ∀ (c : List Bytes) (a' : AStack) (cs : List Constraint), SmallA (absS c) →
+      interp ke ie ms (absS c) = .ok (a', cs) →
       Post env ke ctx ms ty.corr.base ty.corr.unit c a'
-  | .tru, ty, hty, _, c, a', cs, hi => by
+  | .tru, ty, hty, _, c, a', cs, hA, hi => by
     obtain ⟨hb, hu⟩ := typeOf_tru hty; rw [hb, hu]; exact sound_tru h hi
-  | .fls, ty, hty, _, c, a', cs, hi => by
+  | .fls, ty, hty, _, c, a', cs, hA, hi => by
     obtain ⟨hb, hu⟩ := typeOf_fls hty; rw [hb, hu]; exact sound_fls h hi
-  | .pkK k, ty, hty, hs, c, a', cs, hi => by
+  | .pkK k, ty, hty, hs, c, a', cs, hA, hi => by
     rw [typeOf_pkK hty]
     have P := sound_pkK (ctx := ctx) h ag hs hi
     cases hu : ty.corr.unit <;> simpa [Post] using P
-  | .pkH k, ty, hty, _, c, a', cs, hi => by
+  | .pkH k, ty, hty, _, c, a', cs, hA, hi => by
     rw [typeOf_pkH hty]
     have P := sound_pkH (ctx := ctx) h ag hi
     cases hu : ty.corr.unit <;> simpa [Post] using P
-  | .rawPkH k, ty, hty, _, c, a', cs, hi => by
+  | .rawPkH k, ty, hty, _, c, a', cs, hA, hi => by
     rw [typeOf_rawPkH hty]
     have P := sound_rawPkH (ctx := ctx) h ag hi
     cases hu : ty.corr.unit <;> simpa [Post] using P
-  | .after n, ty, hty, hs, c, a', cs, hi => by
+  | .after n, ty, hty, hs, c, a', cs, hA, hi => by
     obtain ⟨hb, hu⟩ := typeOf_after hty; rw [hb, hu]; exact sound_after h ag hs hi
-  | .older n, ty, hty, hs, c, a', cs, hi => by
+  | .older n, ty, hty, hs, c, a', cs, hA, hi => by
     obtain ⟨hb, hu⟩ := typeOf_older hty; rw [hb, hu]; exact sound_older h ag hs hi
-  | .hash k n, ty, hty, _, c, a', cs, hi => by
+  | .hash k n, ty, hty, _, c, a', cs, hA, hi => by
     obtain ⟨hb, hu⟩ := typeOf_hash hty; rw [hb, hu]; exact sound_hash h ag hi
-  | .alt x, ty, hty, hs, c, a', cs, hi => by
+  | .alt x, ty, hty, hs, c, a', cs, hA, hi => by
     obtain ⟨tx, htx, hbx, hb, hu⟩ := typeOf_alt hty
-    have P := sound h ag x tx htx hs c a' cs (by simpa [interp] using hi)
+    have P := sound h ag x tx htx hs c a' cs hA (by simpa [interp] using hi)
     rw [hbx] at P; rw [hb, hu]; exact sound_alt h P
-  | .check x, ty, hty, hs, c, a', cs, hi => by
+  | .check x, ty, hty, hs, c, a', cs, hA, hi => by
     obtain ⟨tx, htx, hbx, hb, hu⟩ := typeOf_check hty
-    have P := sound h ag x tx htx hs c a' cs (by simpa [interp] using hi)
+    have P := sound h ag x tx htx hs c a' cs hA (by simpa [interp] using hi)
     rw [hbx] at P; rw [hb, hu]; exact sound_check h P
-  | .verify x, ty, hty, hs, c, a', cs, hi => by
+  | .verify x, ty, hty, hs, c, a', cs, hA, hi => by
     obtain ⟨tx, htx, hbx, hb⟩ := typeOf_verify hty
     cases hx : interp ke ie x (absS c) with
     | error e => simp [interp, hx] at hi
     | ok p =>
       obtain ⟨ax, csx⟩ := p
-      have P := sound h ag x tx htx hs c ax csx hx
+      have P := sound h ag x tx htx hs c ax csx hA hx
       rw [hbx] at P; rw [hb]
       have Q := sound_verify h hx hi P
       cases hu : ty.corr.unit <;> simpa [Post] using Q
-  | .zeroNotEqual x, ty, hty, hs, c, a', cs, hi => by
+  | .zeroNotEqual x, ty, hty, hs, c, a', cs, hA, hi => by
     obtain ⟨tx, htx, hbx, hb, hu⟩ := typeOf_zeroNotEqual hty
     cases hx : interp ke ie x (absS c) with
     | error e => simp [interp, hx] at hi
     | ok p =>
       obtain ⟨ax, csx⟩ := p
-      have P := sound h ag x tx htx hs c ax csx hx
+      have P := sound h ag x tx htx hs c ax csx hA hx
       rw [hbx] at P; rw [hb, hu]
       exact sound_zeroNotEqual h hx hi P
-  | .andV l r, ty, hty, hs, c, a', cs, hi => by
+  | .andV l r, ty, hty, hs, c, a', cs, hA, hi => by
     obtain ⟨tl, tr, htl, htr, hbl, hb, hnw, hu⟩ := typeOf_andV hty
     cases hl : interp ke ie l (absS c) with
     | error e => simp [interp, hl] at hi
     | ok p =>
       obtain ⟨a1, cs1⟩ := p
-      have Pl := sound h ag l tl htl hs.1 c a1 cs1 hl
+      have Pl := sound h ag l tl htl hs.1 c a1 cs1 hA hl
       rw [hbl] at Pl; rw [hb, hu]
       refine sound_andV hnw Pl (fun c1 ha1 => ?_)
       subst ha1
+      have hA1 : SmallA (absS c1) := hA.interp hl
       cases hr : interp ke ie r (absS c1) with
       | error e => simp [interp, hl, hr] at hi
       | ok q =>
         obtain ⟨a2, cs2⟩ := q
         simp [interp, hl, hr] at hi
         rw [← hi.1]
-        exact sound h ag r tr htr hs.2 c1 a2 cs2 hr
-  | .andB l r, ty, hty, hs, c, a', cs, hi => by
+        exact sound h ag r tr htr hs.2 c1 a2 cs2 hA1 hr
+  | .andB l r, ty, hty, hs, c, a', cs, hA, hi => by
     obtain ⟨tl, tr, htl, htr, hbl, hbr, hb, hu⟩ := typeOf_andB hty
     cases hl : interp ke ie l (absS c) with
     | error e => simp [interp, hl] at hi
     | ok p =>
       obtain ⟨a1, cs1⟩ := p
-      have Pl := sound h ag l tl htl hs.1 c a1 cs1 hl
+      have Pl := sound h ag l tl htl hs.1 c a1 cs1 hA hl
       rw [hbl] at Pl; rw [hb, hu]
-      exact sound_andB h hl hi Pl (fun c1 a2 cs2 hr => by
-        have := sound h ag r tr htr hs.2 c1 a2 cs2 hr; rwa [hbr] at this)
-  | .orB l r, ty, hty, hs, c, a', cs, hi => by
+      exact sound_andB h hl hi Pl hA (fun c1 a2 cs2 hA1 hr => by
+        have := sound h ag r tr htr hs.2 c1 a2 cs2 hA1 hr; rwa [hbr] at this)
+  | .orB l r, ty, hty, hs, c, a', cs, hA, hi => by
     obtain ⟨tl, tr, htl, htr, hbl, hbr, hb, hu⟩ := typeOf_orB hty
     cases hl : interp ke ie l (absS c) with
     | error e => simp [interp, hl] at hi
     | ok p =>
       obtain ⟨a1, cs1⟩ := p
-      have Pl := sound h ag l tl htl hs.1 c a1 cs1 hl
+      have Pl := sound h ag l tl htl hs.1 c a1 cs1 hA hl
       rw [hbl] at Pl; rw [hb, hu]
-      exact sound_orB h hl hi Pl (fun c1 a2 cs2 hr => by
-        have := sound h ag r tr htr hs.2 c1 a2 cs2 hr; rwa [hbr] at this)
-  | .orD l r, ty, hty, hs, c, a', cs, hi => by
+      exact sound_orB h hl hi Pl hA (fun c1 a2 cs2 hA1 hr => by
+        have := sound h ag r tr htr hs.2 c1 a2 cs2 hA1 hr; rwa [hbr] at this)
+  | .orD l r, ty, hty, hs, c, a', cs, hA, hi => by
     obtain ⟨tl, tr, htl, htr, hbl, hul, hbr, hb, hu⟩ := typeOf_orD hty
     cases hl : interp ke ie l (absS c) with
     | error e => simp [interp, hl] at hi
     | ok p =>
       obtain ⟨a1, cs1⟩ := p
-      have Pl := sound h ag l tl htl hs.1 c a1 cs1 hl
+      have Pl := sound h ag l tl htl hs.1 c a1 cs1 hA hl
       rw [hbl, hul] at Pl; rw [hb, hu]
-      exact sound_orD h hl hi Pl (fun c1 a2 cs2 hr => by
-        have := sound h ag r tr htr hs.2 c1 a2 cs2 hr; rwa [hbr] at this)
-  | .orC l r, ty, hty, hs, c, a', cs, hi => by
+      exact sound_orD h hl hi Pl hA (fun c1 a2 cs2 hA1 hr => by
+        have := sound h ag r tr htr hs.2 c1 a2 cs2 hA1 hr; rwa [hbr] at this)
+  | .orC l r, ty, hty, hs, c, a', cs, hA, hi => by
     obtain ⟨tl, tr, htl, htr, hbl, hul, hbr, hb⟩ := typeOf_orC hty
     cases hl : interp ke ie l (absS c) with
     | error e => simp [interp, hl] at hi
     | ok p =>
       obtain ⟨a1, cs1⟩ := p
-      have Pl := sound h ag l tl htl hs.1 c a1 cs1 hl
+      have Pl := sound h ag l tl htl hs.1 c a1 cs1 hA hl
       rw [hbl, hul] at Pl; rw [hb]
-      have Q := sound_orC (u := tr.corr.unit) h hl hi Pl (fun c1 a2 cs2 hr => by
-        have := sound h ag r tr htr hs.2 c1 a2 cs2 hr; rwa [hbr] at this)
+      have Q := sound_orC (u := tr.corr.unit) h hl hi Pl hA (fun c1 a2 cs2 hA1 hr => by
+        have := sound h ag r tr htr hs.2 c1 a2 cs2 hA1 hr; rwa [hbr] at this)
       cases hu : ty.corr.unit <;> simpa [Post] using Q
-  | .orI l r, ty, hty, hs, c, a', cs, hi => by
+  | .orI l r, ty, hty, hs, c, a', cs, hA, hi => by
     obtain ⟨tl, tr, htl, htr, hbl, hbr, hnw, hu⟩ := typeOf_orI hty
-    exact sound_orI h hnw hi
-      (fun c1 a2 cs2 hl => by
-        have := sound h ag l tl htl hs.1 c1 a2 cs2 hl
+    exact sound_orI h hnw hi hA
+      (fun c1 a2 cs2 hA1 hl => by
+        have := sound h ag l tl htl hs.1 c1 a2 cs2 hA1 hl
         rw [hbl] at this; exact this.mono (fun x => (hu x).1))
-      (fun c1 a2 cs2 hr => by
-        have := sound h ag r tr htr hs.2 c1 a2 cs2 hr
+      (fun c1 a2 cs2 hA1 hr => by
+        have := sound h ag r tr htr hs.2 c1 a2 cs2 hA1 hr
         rw [hbr] at this; exact this.mono (fun x => (hu x).2))
-  | .andOr x y z, ty, hty, hs, c, a', cs, hi => by
+  | .andOr x y z, ty, hty, hs, c, a', cs, hA, hi => by
     obtain ⟨tx, ty', tz, htx, hty', htz, hbx, hux, hby, hbz, hnw, hu⟩ := typeOf_andOr hty
     cases hx : interp ke ie x (absS c) with
     | error e => simp [interp, hx] at hi
     | ok p =>
       obtain ⟨a1, cs1⟩ := p
-      have Px := sound h ag x tx htx hs.1 c a1 cs1 hx
+      have Px := sound h ag x tx htx hs.1 c a1 cs1 hA hx
       rw [hbx, hux] at Px
-      exact sound_andOr h hnw hx hi Px
-        (fun c1 a2 cs2 hy => by
-          have := sound h ag y ty' hty' hs.2.1 c1 a2 cs2 hy
+      exact sound_andOr h hnw hx hi Px hA
+        (fun c1 a2 cs2 hA1 hy => by
+          have := sound h ag y ty' hty' hs.2.1 c1 a2 cs2 hA1 hy
           rw [hby] at this; exact this.mono (fun q => (hu q).1))
-        (fun c1 a2 cs2 hz => by
-          have := sound h ag z tz htz hs.2.2 c1 a2 cs2 hz
+        (fun c1 a2 cs2 hA1 hz => by
+          have := sound h ag z tz htz hs.2.2 c1 a2 cs2 hA1 hz
           rw [hbz] at this; exact this.mono (fun q => (hu q).2))
-  | .swap x, ty, hty, hs, c, a', cs, hi => by
+  | .swap x, ty, hty, hs, c, a', cs, hA, hi => by
     obtain ⟨tx, htx, hbx, hin, hb, hu⟩ := typeOf_swap hty
-    have P := sound h ag x tx htx hs.1 c a' cs (by simpa [interp] using hi)
+    have P := sound h ag x tx htx hs.1 c a' cs hA (by simpa [interp] using hi)
     rw [hbx] at P; rw [hb, hu]
     have hc := TypeSound.args_cons (env := env) h.st ke ctx x hs.2 tx 1 htx
       (by rcases hin with e | e <;> rw [e] <;> rfl)
     rw [hbx] at hc
     exact sound_swap h hc P
-  | .dupIf x, ty, hty, hs, c, a', cs, hi => by
+  | .dupIf x, ty, hty, hs, c, a', cs, hA, hi => by
     obtain ⟨tx, htx, hbx, hin, hb, hu⟩ := typeOf_dupIf hty
     have hc := TypeSound.args_cons (env := env) h.st ke ctx x hs.2 tx 0 htx (by rw [hin]; rfl)
     rw [hbx] at hc
     rw [hb, hu]
-    exact sound_dupIf h hc hi (fun c1 a2 cs2 hx => by
-      have := sound h ag x tx htx hs.1 c1 a2 cs2 hx
+    exact sound_dupIf h hc hi hA (fun c1 a2 cs2 hA1 hx => by
+      have := sound h ag x tx htx hs.1 c1 a2 cs2 hA1 hx
       rw [hbx] at this
       cases hux : tx.corr.unit <;> simpa [Post, hux] using this)
-  | .nonZero _, _, _, hs, _, _, _, _ => hs.elim
-  | .thresh k xs, ty, hty, hs, c, a', cs, hi => by
+  | .nonZero x, ty, hty, hs, c, a', cs, hA, hi => by
+    obtain ⟨tx, htx, hbx, hb, hu⟩ := typeOf_nonZero hty
+    rw [hb, hu]
+    exact sound_nonZero h hi hA (fun hx => by
+      have := sound h ag x tx htx hs c a' cs hA hx
+      rwa [hbx] at this)
+  | .thresh k xs, ty, hty, hs, c, a', cs, hA, hi => by
     obtain ⟨ts, n, hts, hloop, hb, hu⟩ := typeOf_thresh hty
     rw [hb, hu]
     obtain ⟨hk1, hk, hlen, hsl⟩ := hs
@@ -1453,7 +1573,7 @@ theorem sound (h : NoLimits env) (ag : Agree env ie) :
       | error er => simp [hx] at hi
       | ok p =>
         obtain ⟨st1, cs1⟩ := p
-        have P1 := sound h ag x t htx hsl.1 c st1 cs1 hx
+        have P1 := sound h ag x t htx hsl.1 c st1 cs1 hA hx
         rw [hB rfl, hunit] at P1
         obtain ⟨r1, c1, hst1, F1⟩ := P1
         subst hst1
@@ -1463,7 +1583,7 @@ theorem sound (h : NoLimits env) (ag : Agree env ie) :
         | ok q =>
           obtain ⟨st2, nS', cs2⟩ := q
           obtain ⟨rL, cL, hst2, hrLb, G⟩ := soundRest h ag xs' ts' hts' 1 _ n (by omega) hloop' hsl.2
-            c1 r1 0 st2 nS' cs2 hr1b hrest
+            c1 r1 0 st2 nS' cs2 hr1b ((hA.interp hx).tail) hrest
           subst hst2
           simp only [hx, hrest] at hi
           have hfin : (if nS' + bitOf rL = k then Elem.sat else Elem.dissat) :: absS cL = a' := by
@@ -1493,42 +1613,43 @@ theorem sound (h : NoLimits env) (ag : Agree env ie) :
             simpa using thresh_tail h hk hmT (cL ++ rest) alt o2
           · have := Res.ofBool env true (decide (nS' + bitOf rL = k))
             simpa using this
-  | .multi k ks, ty, hty, hs, c, a', cs, hi => by
+  | .multi k ks, ty, hty, hs, c, a', cs, hA, hi => by
     obtain ⟨hb, hu⟩ := typeOf_multi hty; rw [hb, hu]; exact sound_multi h ag hs hi
-  | .sortedMulti _ _, _, _, hs, _, _, _, _ => hs.elim
-  | .multiA k ks, ty, hty, hs, c, a', cs, hi => by
+  | .sortedMulti _ _, _, _, hs, _, _, _, _, _ => hs.elim
+  | .multiA k ks, ty, hty, hs, c, a', cs, hA, hi => by
     obtain ⟨hb, hu⟩ := typeOf_multiA hty; rw [hb, hu]; exact sound_multiA h ag hs hi
-  | .sortedMultiA _ _, _, _, hs, _, _, _, _ => hs.elim
+  | .sortedMultiA _ _, _, _, hs, _, _, _, _, _ => hs.elim
 /-- children 2…n of `thresh`: each runs as a `W` fragment on the accumulated sum and is added -/
 theorem soundRest (h : NoLimits env) (ag : Agree env ie) :
     (xs : MsList) → (ts : List Ty) → typesOf xs = some ts →
     ∀ (i acc n : Nat), i ≠ 0 → Corr.threshLoop i acc (ts.map (·.corr)) = some n → SupList env ke xs →
     ∀ (cPrev : List Bytes) (rPrev : Elem) (nS : Nat) (st' : AStack) (nS' : Nat) (cs : List Constraint),
-      (rPrev = .sat ∨ rPrev = .dissat) →
+      (rPrev = .sat ∨ rPrev = .dissat) → SmallA (absS cPrev) →
       interpRest ke ie xs nS (rPrev :: absS cPrev) = .ok (st', nS', cs) →
       ∃ rL cL, st' = rL :: absS cL ∧ (rL = .sat ∨ rL = .dissat) ∧
         ∀ rest alt ops, nS + bitOf rPrev + xs.length < 2 ^ 31 →
           ∃ ops', fragThresh env ke ctx false xs
               ⟨numEncode ((nS + bitOf rPrev : Nat) : Int) :: (cPrev ++ rest), alt, ops⟩
             = .ok ⟨numEncode ((nS' + bitOf rL : Nat) : Int) :: (cL ++ rest), alt, ops'⟩
-  | .nil, ts, _, i, acc, n, _, _, _, cPrev, rPrev, nS, st', nS', cs, hrp, hi => by
+  | .nil, ts, _, i, acc, n, _, _, _, cPrev, rPrev, nS, st', nS', cs, hrp, hA, hi => by
     simp [interpRest] at hi
     obtain ⟨e1, e2, _⟩ := hi
     subst e1; subst e2
     exact ⟨rPrev, cPrev, rfl, hrp, fun rest alt ops _ => ⟨ops, by simp [fragThresh]⟩⟩
-  | .cons x xs, ts, hts, i, acc, n, hi0, hloop, hsl, cPrev, rPrev, nS, st', nS', cs, hrp, hi => by
+  | .cons x xs, ts, hts, i, acc, n, hi0, hloop, hsl, cPrev, rPrev, nS, st', nS', cs, hrp, hA, hi => by
     obtain ⟨t, ts', htx, hts', hcons⟩ := typesOf_cons hts
     subst hcons
     simp only [List.map_cons] at hloop
     obtain ⟨_, hW, hunit, hloop'⟩ := threshLoop_cons hloop
     obtain ⟨st1, cs1, cs2, hx, hrest⟩ := interpRest_cons_inv hrp hi
-    have P1 := sound h ag x t htx hsl.1 cPrev st1 cs1 hx
+    have P1 := sound h ag x t htx hsl.1 cPrev st1 cs1 hA hx
+    have hA1 := hA.interp hx
     rw [hW hi0, hunit] at P1
     obtain ⟨r1, c1, hst1, F1⟩ := P1
     subst hst1
     have hr1b : r1 = .sat ∨ r1 = .dissat := by obtain ⟨_, _, _, hr⟩ := F1 [] [] [] 0; exact hr.bool
     obtain ⟨rL, cL, hst', hrLb, G⟩ := soundRest h ag xs ts' hts' (i + 1) _ n (by omega) hloop' hsl.2
-      c1 r1 (nS + bitOf rPrev) st' nS' cs2 hr1b hrest
+      c1 r1 (nS + bitOf rPrev) st' nS' cs2 hr1b hA1.tail hrest
     refine ⟨rL, cL, hst', hrLb, fun rest alt ops hbound => ?_⟩
     have hlen : (MsList.cons x xs).length = xs.length + 1 := by simp [MsList.length]
     rw [hlen] at hbound
